@@ -32,7 +32,9 @@ for d in $touched; do case $d in tars/tools/tars2go*) (cd $wt/tars/tools/tars2go
 echo "== changed: demo must fail" >> $log; demo; p1=$?
 echo "pristine_demo_rc=$p0 build_rc=$b existing_tests_rc=$t changed_demo_rc=$p1" | tee -a $log
 echo "== our check against the changed tree" >> $log
-(cd /verif && VERIF_REPO=$wt ./vcheck $prop > /verif/seeded/$name/vcheck.out 2>&1; echo "vcheck_rc=$?" >> /verif/seeded/$name/vcheck.out)
+(cd /verif && VERIF_REPO=$wt VERIF_WS=$name ./vcheck $prop > /verif/seeded/$name/vcheck.out 2>&1; echo "vcheck_rc=$?" >> /verif/seeded/$name/vcheck.out)
 tail -4 /verif/seeded/$name/vcheck.out
 cp $src/patch.diff /verif/seeded/$name/; cp $src/meta.json /verif/seeded/$name/meta.agent.json 2>/dev/null; cp $src/demo_test.go /verif/seeded/$name/ 2>/dev/null; cp -r $src/demo /verif/seeded/$name/ 2>/dev/null
+mkdir -p /verif/seeded/$name/replay; cp /verif/out/ws/$name/replay/*.json /verif/seeded/$name/replay/ 2>/dev/null
+rm -rf /verif/out/ws/$name
 git -C /repo worktree remove --force $wt
